@@ -38,20 +38,54 @@ def main():
         [n, k, int(cb.arr_comb(np.array([n], dtype=np.int32), k)[0])]
         for n, k in req.get("arr_comb", [])
     ]
-    # random vectors
+    # random vectors: every dtype a caller may pass, each function called twice on the same
+    # array (the index must be a function of the vector: same answer, input left alone)
     vec = []
-    for v in req.get("vectors", []):
-        a = np.array(v, dtype=np.int32)
-        vec.append(
-            {
-                "v": v,
-                "index": int(ix.get_index_in_fock_space(a)),
-                "index_arr": int(ix.get_index_in_fock_space_array(a.reshape(1, -1))[0]),
-                "subindex": int(ix.get_index_in_fock_subspace(a)),
-                "subindex_arr": int(ix.get_index_in_fock_subspace_array(a.reshape(1, -1))[0]),
-            }
-        )
+    dtypes = [np.int32, np.int64, np.int16, np.uint8]
+    for k, v in enumerate(req.get("vectors", [])):
+        dt = dtypes[k % len(dtypes)]
+        if max(v, default=0) > np.iinfo(dt).max:
+            dt = np.int64
+        a = np.array(v, dtype=dt)
+        b = a.reshape(1, -1).copy()
+        rec = {
+            "v": v,
+            "dtype": np.dtype(dt).name,
+            "index": int(ix.get_index_in_fock_space(a)),
+            "index_arr": int(ix.get_index_in_fock_space_array(b)[0]),
+            "subindex": int(ix.get_index_in_fock_subspace(a)),
+            "subindex_arr": int(ix.get_index_in_fock_subspace_array(b)[0]),
+        }
+        rec["second_call"] = [
+            int(ix.get_index_in_fock_space(a)),
+            int(ix.get_index_in_fock_space_array(b)[0]),
+            int(ix.get_index_in_fock_subspace(a)),
+            int(ix.get_index_in_fock_subspace_array(b)[0]),
+        ]
+        rec["input_after"] = [a.tolist(), b[0].tolist()]
+        vec.append(rec)
     out["vectors"] = vec
+    # batches: several vectors of equal length in one int64 / int32 array
+    batches = []
+    for vs in req.get("batches", []):
+        for dt in (np.int64, np.int32):
+            arr = np.array(vs, dtype=dt)
+            first = [int(x) for x in ix.get_index_in_fock_space_array(arr)]
+            sfirst = [int(x) for x in ix.get_index_in_fock_subspace_array(arr)]
+            second = [int(x) for x in ix.get_index_in_fock_space_array(arr)]
+            batches.append({"vs": vs, "dtype": np.dtype(dt).name, "index": first, "subindex": sfirst,
+                            "index_again": second, "input_after": arr.tolist()})
+    out["batches"] = batches
+    # dimension arrays on arbitrary (non-consecutive, repeated, unsorted) cutoff arrays
+    dims = []
+    for d, cs in req.get("dim_arrays", []):
+        c = np.array(cs, dtype=np.int64)
+        dims.append({"d": d, "cutoffs": cs,
+                     "bosonic": [int(x) for x in fk.cutoff_fock_space_dim_array(c, d)],
+                     "fermionic": [int(x) for x in fu.cutoff_fock_space_dim_array(c, d)],
+                     "bosonic_scalar": [int(fk.cutoff_fock_space_dim(int(x), d)) for x in cs],
+                     "fermionic_scalar": [int(fu.get_cutoff_fock_space_dimension(d, int(x))) for x in cs]})
+    out["dim_arrays"] = dims
     # fermionic
     fer = []
     for d in req.get("fermionic", []):
